@@ -51,6 +51,7 @@ def _import_graph(sources: Dict[str, Tuple[bool, str]]) -> Dict[str, Set[str]]:
     import ast
     names = set(sources)
     graph: Dict[str, Set[str]] = {n: set() for n in names}
+    _STAR_EDGES.clear()
 
     def add(frm: str, target: str) -> None:
         parts = target.split('.')
@@ -85,12 +86,34 @@ def _import_graph(sources: Dict[str, Tuple[bool, str]]) -> Dict[str, Set[str]]:
             add(self.mod, base)
             for a in node.names:
                 add(self.mod, f'{base}.{a.name}')
+                if a.name == '*' and base in names:
+                    _STAR_EDGES.setdefault(self.mod, set()).add(base)
     for mod, (is_pkg, text) in sources.items():
         try:
             V(mod, is_pkg).visit(ast.parse(text))
         except SyntaxError:
             pass
     return graph
+
+
+_STAR_EDGES: Dict[str, Set[str]] = {}
+
+
+def _poisoned(system: Any, graph: Dict[str, Set[str]], dump: Dict[str, Any], module: str, name: str) -> bool:
+    """the known mechanism: some star import `from B import *` ran in A while B was still being analysed (and the sources really contain
+    a cycle through A and B), B provides `name`, and `module` is A or star-imports A through a chain of star imports"""
+    from pydoctor import model
+    for a_mod, b_mod in system.__dict__.get('_vf_star_in_progress', []):
+        if not _reaches(graph, b_mod, a_mod):
+            continue
+        brt = dump['modules'].get(b_mod) or {'ns': {}, 'all': None}
+        bobj = system.allobjects.get(b_mod)
+        provided = set(brt['ns']) | set(brt.get('all') or []) | (set(bobj.all or []) if isinstance(bobj, model.Module) else set())
+        if name not in provided:
+            continue
+        if module == a_mod or _reaches(_STAR_EDGES, module, a_mod):
+            return True
+    return False
 
 
 def _reaches(graph: Dict[str, Set[str]], a: str, b: str) -> bool:
@@ -317,10 +340,21 @@ def _judge(res: core.Res, spec: project.Spec, label: str, dump: Dict[str, Any], 
                 res.c('not_judged_star_import_from_cyclic_module')
                 return
             if got is not None and gotname != exp:
+                # the known star-import-in-progress mechanism can also leave an *older* binding of the name in place
+                parts = name.split('.')
+                # the binding at fault lives in this module, or (dotted name) in the module the first component denotes
+                sites = [(full, parts[0])]
+                if len(parts) > 1:
+                    first = rt['ns'].get(parts[0], {})
+                    if first.get('kind') == 'module':
+                        sites.append((first['modname'], parts[1]))
+                if any(_poisoned(system, graph, dump, m_, n_) for m_, n_ in sites):
+                    res.v('C04:wrong-object:star-import-from-module-in-progress', f'{label}: in {ctxname}, {name!r} resolves to {gotname}, Python binds it to {exp} '
+                          f'(a star import that binds it ran while its source module was still being analysed)', name=name, **witness())
+                    return
                 form = 'dotted' if '.' in name else 'plain'
                 res.v(f'C04:wrong-object:{form}', f'{label}: in {ctxname}, {name!r} resolves to {gotname}, Python binds it to {exp}', name=name, **witness())
-            elif got is None and why_must and 'star' in why_must and (full, star_src.get(name)) in system.__dict__.get('_vf_star_in_progress', []) \
-                    and _reaches(graph, star_src[name], full):
+            elif got is None and why_must and _poisoned(system, graph, dump, full, name.split('.')[0]):
                 # the star import ran while its source module was still being analysed, and the sources really contain that cycle
                 # (the source module imports, directly or not, the module that star-imports it): the names defined later are never bound
                 res.c('must_resolve_checked')
